@@ -198,7 +198,11 @@ void pop3_quit(arg) char *arg;
 int msgno(arg) char *arg;
 {
   unsigned long u;
-  if (!scan_ulong(arg,&u)) { err_syntax(); return -1; }
+  unsigned int len;
+  while (arg[0] == '0' && arg[1] >= '0' && arg[1] <= '9') ++arg;
+  len = scan_ulong(arg,&u);
+  if (!len) { err_syntax(); return -1; }
+  if (len > 19) { err_toobig(); return -1; } /* scan_ulong wraps beyond 64 bits */
   if (!u) { err_nozero(); return -1; }
   --u;
   if (u >= numm || u >= INT_MAX) { err_toobig(); return -1; }
